@@ -13,7 +13,7 @@ inputs including those on which the elimination divides by zero.
 """
 from units.common import *
 
-LEVEL_NOTE = ('structural clauses only (triangularity, unit diagonal, permutation is a bijection, frame); the residual bound of the '
+LEVEL_NOTE = ('structural clauses only (triangularity, unit diagonal, permutation is a bijection, frame) for n <= 8; n >= 9 (block algorithm) and the residual bound of the '
               'property is not decided by this technique')
 
 def lu_case(ty, n, strat, pform, cfg):
@@ -66,7 +66,10 @@ def cases(tier, seed):
     for isa in isas(tier):
         cfg = Cfg(isa, pipe='P0')
         for ty in (DBL, FLT):
-            sizes = (1, 2, 3, 4, 5) if not thorough else (1, 2, 3, 4, 5, 6, 7, 8, 9)
+            # n <= 8 only: from n = 9 on the block/recursive algorithm produces the structural zeros and the unit diagonal by
+            # arithmetic (x - x, x / x), which uninterpreted arithmetic cannot decide (measured: BlockLU n=9 fails U(1,0)==0 with
+            # no failing IEEE input; SimpleLU n=9 exceeds 300 s).  Stated in LEVEL_NOTE; seed C11-1 (n >= 9) is therefore missed.
+            sizes = (1, 2, 3, 4, 5) if not thorough else (1, 2, 3, 4, 5, 6, 7, 8)
             for n in sizes:
                 for strat in ('BlockLU', 'SimpleLU'):
                     out.append(lu_case(ty, n, strat, None, cfg))
